@@ -475,6 +475,15 @@ let pd file =
               | POk ->
                   let left = if op = "trk" then -1 else iz o.po_left in
                   Printf.printf "%s OK %d %d %d %d %d\n" op (iz o.po_mode) (iz o.po_W) (iz o.po_lW) (iz o.po_nW) left;
+                  (* model-only line, on request (token "e"): does the packet end before its data does?  Decode it again with
+                     zero bytes appended (always legal): if the decoder then reads beyond the original length, it was cut short *)
+                  if op = "pkt" && List.mem "e" rest then begin
+                    let rec zeros n = if n = 0 then [] else N0 :: zeros (n - 1) in
+                    let o2 = synthesis d (pkt @ zeros 64) in
+                    let len = 8 * List.length pkt in
+                    let used2 = len + 512 - iz o2.po_left in
+                    Printf.printf "eop %d\n" (if o2.po_verdict = POk && (iz o2.po_left < 0 || used2 > len) then 1 else 0)
+                  end;
                   (* in half-rate mode the inverse MDCT (and the harness' capture) sees the lower half of the spectrum only *)
                   let rec take n l = if n = 0 then [] else (match l with x :: t -> x :: take (n - 1) t | [] -> []) in
                   let cut v = if !half = 1 then take (List.length v / 2) v else v in
